@@ -5,6 +5,7 @@ import ast
 from ..engine import rule
 from ..flow import PRUNE, Violation, explore, path_ends, path_is, prov_has, \
     provenance, store_value, strip_not
+from ..locks import lock_delta
 from ..model import dotted, walk_local
 from ..twopc import BS, DS, FS, MS
 
@@ -44,14 +45,8 @@ def r1(R):
                     continue
                 g, b, F = R.cfg(f, cls, max_depth=0)
 
-                def edge(node, st, lab, tgt):
-                    if node.kind == 'acq' and node.info['lock'] == (
-                            'self', '_lock'):
-                        return st + 1
-                    if node.kind == 'rel' and node.info['lock'] == (
-                            'self', '_lock'):
-                        return max(0, st - 1)
-                    return st
+                def edge(node, st, lab, tgt, F=F):
+                    return max(0, st + lock_delta(F, node))
 
                 def at(node, st, F=F, f=f, cls=cls):
                     for op in F.ops(node):
